@@ -636,6 +636,21 @@ def name_agreement(check, prog, modules=('holopy.inference.model',)):
                     if callee is None:
                         continue
                     pnames = [a.arg for a in callee.args.args][skip_self:]
+                    for k_ in node.keywords:
+                        # handed over by name: routed correctly by construction
+                        if k_.arg in pnames and isinstance(k_.value, ast.Name) and \
+                                k_.value.id in pnames:
+                            n += 1
+                            check.require(
+                                k_.arg == k_.value.id, 'P7-argument-routing',
+                                '%s.%s -> %s(%s)' % (c.name, mname, callee.name,
+                                                     k_.value.id),
+                                'argument %s is bound to parameter %s' % (
+                                    k_.value.id, k_.arg),
+                                '%s:%d' % (m.relpath, node.lineno),
+                                fail_detail='%s is passed as %s=, and the callee also '
+                                'has a parameter named %r' % (k_.value.id, k_.arg,
+                                                              k_.value.id))
                     for i, a in enumerate(node.args):
                         if isinstance(a, ast.Name) and a.id in pnames and i < len(pnames):
                             n += 1
@@ -648,4 +663,4 @@ def name_agreement(check, prog, modules=('holopy.inference.model',)):
                                 fail_detail='%s is passed in position %d, which is the '
                                 'parameter %r of %s; the callee also has a parameter '
                                 'named %r' % (a.id, i, pnames[i], callee.name, a.id))
-    check.floor('name-agreeing positional arguments', n, 10)
+    check.floor('name-agreeing arguments', n, 10)
